@@ -132,8 +132,10 @@ func (s *Schema) FileDescriptor(fileName, pkg, goPkg string) *descriptorpb.FileD
 	for _, x := range s.FileExt {
 		t, tn := s.typeRef(x.Kind, pkg)
 		_, def := splitDefault(x.Kind)
-		fd.Extension = append(fd.Extension, &descriptorpb.FieldDescriptorProto{Name: proto.String(x.Name), Number: proto.Int32(x.Num), Type: t.Enum(), TypeName: tn, DefaultValue: def,
-			Label: descriptorpb.FieldDescriptorProto_LABEL_OPTIONAL.Enum(), Extendee: proto.String("." + pkg + "." + strings.TrimPrefix(x.Card, "ext:")), JsonName: proto.String(lowerCamel(x.Name))})
+		ext := &descriptorpb.FieldDescriptorProto{Name: proto.String(x.Name), Number: proto.Int32(x.Num), Type: t.Enum(), TypeName: tn, DefaultValue: def,
+			Label: descriptorpb.FieldDescriptorProto_LABEL_OPTIONAL.Enum(), Extendee: proto.String("." + pkg + "." + strings.TrimPrefix(x.Card, "ext:")), JsonName: proto.String(lowerCamel(x.Name))}
+		extCardinality(ext, x)
+		fd.Extension = append(fd.Extension, ext)
 	}
 	return fd
 }
@@ -241,15 +243,25 @@ func (s *Schema) message(m *M, scope, pkg string) *descriptorpb.DescriptorProto 
 		_, def := splitDefault(x.Kind)
 		ext := &descriptorpb.FieldDescriptorProto{Name: proto.String(x.Name), Number: proto.Int32(x.Num), Type: t.Enum(), TypeName: tn, DefaultValue: def,
 			Label: descriptorpb.FieldDescriptorProto_LABEL_OPTIONAL.Enum(), Extendee: proto.String("." + pkg + "." + strings.TrimPrefix(x.Card, "ext:")), JsonName: proto.String(lowerCamel(x.Name))}
-		if strings.HasSuffix(x.Name, "_rep") {
-			ext.Label = descriptorpb.FieldDescriptorProto_LABEL_REPEATED.Enum()
-		}
+		extCardinality(ext, x)
 		md.Extension = append(md.Extension, ext)
 	}
 	for i := range m.Nested {
 		md.NestedType = append(md.NestedType, s.message(&m.Nested[i], full, pkg))
 	}
 	return md
+}
+
+// extCardinality: an extension whose name ends in "_rep" is declared `repeated`; one whose name ends in "_packed_rep"
+// (a packable kind) is declared `repeated … [packed=true]`, the way an ordinary proto2 field of Card "packed" is.
+func extCardinality(ext *descriptorpb.FieldDescriptorProto, x F) {
+	if !strings.HasSuffix(x.Name, "_rep") {
+		return
+	}
+	ext.Label = descriptorpb.FieldDescriptorProto_LABEL_REPEATED.Enum()
+	if kind, _ := splitDefault(x.Kind); strings.HasSuffix(x.Name, "_packed_rep") && isPackable(kind) {
+		ext.Options = &descriptorpb.FieldOptions{Packed: proto.Bool(true)}
+	}
 }
 
 func isPackable(kind string) bool {
